@@ -151,13 +151,14 @@ def execute(prog, model=None):
     else:
         orig_acc = g.opf_accuracy
 
-        def acc(labels, preds):
+        def acc(labels, preds, *more, **kw):
+            # (further arguments a re-organised caller may pass are handed through untouched)
             if script is not None:
                 if len(values) >= len(script):
                     raise seams.ScriptExhausted("criterion evaluated more often than candidates exist")
                 v = float(script[len(values)])
             else:
-                v = float(orig_acc(labels, preds))
+                v = float(orig_acc(labels, preds, *more, **kw))
             values.append(v)
             return v
 
@@ -225,8 +226,22 @@ def independent_accuracies(prog):
         m._clustering()
         preds = [int(p) for p in m.predict(Xv.copy())]
         K = max(max(Yv), max(preds)) + 1
-        out.append(float(c20.ref_measures(Yv, preds, K)[0]) if all(Yv.count(c) for c in range(K))
-                   else None)
+        if all(Yv.count(c) for c in range(K)):
+            out.append(float(c20.ref_measures(Yv, preds, K)[0]))
+        else:
+            # a class without validation samples has no false-negative rate; its false positives
+            # still count, and K is the number of classes among labels and predictions
+            from fractions import Fraction as Fr
+            n_, s_ = len(Yv), Fr(0)
+            for cl in range(K):
+                nc = Yv.count(cl)
+                fp = sum(1 for y, p_ in zip(Yv, preds) if p_ == cl and y != cl)
+                fn = sum(1 for y, p_ in zip(Yv, preds) if y == cl and p_ != cl)
+                if n_ - nc > 0:
+                    s_ += Fr(fp, n_ - nc)
+                if nc > 0:
+                    s_ += Fr(fn, nc)
+            out.append(float(1 - s_ / (2 * K)))
     return out
 
 
@@ -421,6 +436,16 @@ def _programs(shard, seed):
                            "labels": [i % 2 for i in range(n)], "min_k": mn, "max_k": mx, "script": None}
                 if uneven:
                     continue
+                if n == 4 and not knn5 and not uneven:
+                    # three training classes, validation sets in which the highest one does not occur
+                    # (the number of classes an accuracy is normalised with then depends on the candidate)
+                    for lab3 in E.labelings(n, min_classes=3, max_classes=3):
+                        for v in ({"X": [list(pts[1]), list(pts[0]), list(pts[3])], "labels": [0, 1, 0]},
+                                  {"X": [list(pts[2]), list(pts[0]), list(pts[3]), list(pts[1])],
+                                   "labels": [1, 0, 0, 1]}):
+                            yield {"model": "KNNSupervisedOPF", "mode": "features", "X": X,
+                                   "metric": "euclidean", "labels": list(lab3), "max_k": mx, "val": v,
+                                   "script": None}
                 labs5 = [tuple(i % 2 for i in range(n)), tuple(0 if i < n // 2 else 1 for i in range(n)),
                          tuple(1 if i == 2 else 0 for i in range(n))]
                 for lab in (labs5 if knn5 else E.labelings(n, max_classes=2)):
@@ -430,6 +455,9 @@ def _programs(shard, seed):
                             {"X": [list(pts[2]), list(pts[2])], "labels": [1, 0]}]
                     if knn5:
                         vals = vals[:2]
+                    else:
+                        # a validation set in which the highest training class does not occur
+                        vals.append({"X": [list(pts[1]), list(pts[0]), list(pts[3])], "labels": [0, 0, 0]})
                     for v in vals:
                         yield {"model": "KNNSupervisedOPF", "mode": "features", "X": X,
                                "metric": "euclidean", "labels": lab, "max_k": mx, "val": v,
